@@ -103,12 +103,31 @@ reg(Check("C20", "exploration",
 
 reg(Check("C17", "model_checking",
           "placement: all 31 non-empty subsets of a 5-name universe (names that are prefixes/suffixes of each other) x all "
-          "permutations x {all-at-once, one-by-one} x replicas {1,2,3,20} x hash {crc32, 2-bit colliding, constant} x 543 keys",
-          ["hash ties are judged for order-independence and totality only, not for which node wins"],
-          text="(being extended) exhaustive enumeration of ring constructions",
-          note="election part pending", technique="bounded-exhaustive enumeration; explicit-state search for the election",
+          "permutations x {all-at-once, one-by-one} x replicas {1,2,3,20} x hash {crc32, 2-bit colliding, constant} x 543 keys. "
+          "Election: 3, 4 and 5 real Cluster objects run their real run() loops under the deterministic scheduler with net/rpc "
+          "replaced by a harness-owned transport; events = {heartbeat timer of node i fires, election timer of node i fires, "
+          "in-flight request/reply k arrives, in-flight message k is lost, node i is cut off, network heals}; breadth-first search "
+          "over all event histories with at most B departures from the default schedule (default = oldest message arrives / the "
+          "leader's (else first node's) heartbeat fires / heal; B = 2 quick, 4 thorough for 3 nodes; 1 / 3 for 4 and 5 nodes), terms "
+          "bounded by 3 (2 for 4-5 nodes), at most 8 messages in flight, vote_after = node_fail_after = 2; to a fixpoint. "
+          "Gate: all sequences up to length 3 (quick) / 4 (thorough) of {join, publish, get, leave, route} x {same ring, other ring} "
+          "and X rehashing, through the real TopicMaster / Route endpoints. Non-trivial = distinct canonical states / sequences.",
+          ["hash ties are judged for order-independence and totality only, not for which node wins",
+           "election: each request gets at most one reply; a lost message fails the caller's call (net/rpc reports a broken "
+           "connection), the link reconnects at once unless the node is cut off; Cluster.Ping is acknowledged by the transport; "
+           "ring adoption is demanded on the second accepted health check with a differing signature (the code deliberately "
+           "skips the first); function-local state of run() (missed, rehashSkipped) is read through pointers exposed by the instrumenter",
+           "gate: proxyEventQueue is not started (responses stay queued on the multiplexing session); 'Gone' tear-down requests are "
+           "processed before the signature check by design and are not part of the alphabet"],
+          text="Exhaustive enumeration of ring constructions; explicit-state search over election / health-check event histories of "
+               "real Cluster objects; exhaustive sequences through the inter-node endpoints.",
+          note="", technique="bounded-exhaustive enumeration; explicit-state model checking of the implementation (deviation-bounded)",
           engine="E4 enum", claimed=True,
-          parts=[Part("ring", "server/ringhash", "^TestVerifC17Ring$", shards=(8, 8))]))
+          parts=[Part("ring", "server/ringhash", "^TestVerifC17Ring$", shards=(8, 8)),
+                 Part("election3", SRV, "^TestVerifC17Election3$", instr=True, gomaxprocs=16, deadline=(120, 3000)),
+                 Part("gate", SRV, "^TestVerifC17Gate$", instr=True, shards=(8, 16), deadline=(120, 1800)),
+                 Part("election4", SRV, "^TestVerifC17Election4$", instr=True, gomaxprocs=16, deadline=(60, 1800)),
+                 Part("election5", SRV, "^TestVerifC17Election5$", instr=True, gomaxprocs=16, deadline=(60, 1800))]))
 
 reg(Check("C12", "exploration",
           "tokens: 36 issued tokens (3 uids x 3 levels x 4 feature sets), each with all 400 single-bit and 79800 double-bit "
